@@ -52,3 +52,82 @@ pub fn run(_opts: &Opts) -> i32 {
     }
     0
 }
+
+fn rss_kb() -> u64 {
+    std::fs::read_to_string("/proc/self/statm").ok().and_then(|s| s.split_whitespace().nth(1).and_then(|x| x.parse::<u64>().ok())).unwrap_or(0) * 4
+}
+
+/// `mqtt-verif leak <variant>`: run a minimal scenario many times on one thread and print the RSS
+pub fn leak(opts: &Opts) -> i32 {
+    let variant: u32 = opts.extra.first().and_then(|s| s.parse().ok()).unwrap_or(0);
+    let n = if variant == 7 { 5_000 } else { 20_000 };
+    let start = rss_kb();
+    for i in 0..n {
+        let _ = pool::catch(|| {
+            rt::run(
+                async move {
+                    match variant {
+                        0 => {} // runtime only
+                        1 => {
+                            let app = App::new("leak");
+                            let cfg = ConnCfg::new(Role::V3Server);
+                            let mut c = conn::start(&cfg, app.clone()).await;
+                            c.finish().await;
+                        }
+                        2 => {
+                            let app = App::new("leak");
+                            let cfg = ConnCfg::new(Role::V5Client);
+                            let mut c = conn::start(&cfg, app.clone()).await;
+                            c.finish().await;
+                        }
+                        3 => {
+                            // only the server factory, no connection
+                            let cfg = ConnCfg::new(Role::V3Server);
+                            let _srv = conn::Server::new(&cfg).await;
+                        }
+                        5 => {
+                            // transport only
+                            let (a, b) = ntex_io::testing::IoTest::create();
+                            let io = ntex_io::Io::new(b, ntex_service::cfg::SharedCfg::new("T"));
+                            a.write(b"abc");
+                            rt::quiesce().await;
+                            drop(a);
+                            rt::quiesce().await;
+                            drop(io);
+                            rt::quiesce().await;
+                        }
+                        6 => {
+                            let app = App::new("leak");
+                            let cfg = ConnCfg::new(Role::V3Server);
+                            let mut c = conn::start(&cfg, app.clone()).await;
+                            c.finish().await;
+                            drop(c);
+                            rt::quiesce().await;
+                            *app.sink.borrow_mut() = None;
+                            rt::quiesce().await;
+                        }
+                        7 => {
+                            // real sleep so that timers can run the disconnect timeout etc.
+                            let app = App::new("leak");
+                            let cfg = ConnCfg::new(Role::V3Server);
+                            let mut c = conn::start(&cfg, app.clone()).await;
+                            c.finish().await;
+                            drop(c);
+                            *app.sink.borrow_mut() = None;
+                            ntex_util::time::sleep(ntex_util::time::Millis(5)).await;
+                        }
+                        _ => {
+                            let _app = App::new("leak");
+                        }
+                    }
+                },
+                200_000,
+                Duration::from_secs(20),
+            )
+        });
+        if i % 5000 == 4999 {
+            println!("variant {variant}: after {} runs rss {} KB (+{} KB, {:.1} KB/run)", i + 1, rss_kb(), rss_kb() - start, (rss_kb() - start) as f64 / (i + 1) as f64);
+        }
+    }
+    0
+}
